@@ -481,7 +481,7 @@ example : ∃ (m : Model (Ext K)) (b : BoundsMap (Ext K)) (d : List (DomVar (Ext
   · intro ρ; exact ⟨ρ "x", by simp [exAffine, eval]⟩
   · intro c hc
     exact ⟨(haff.cons c hc).notAssert, FG_of_AG (haff.cons c hc).lhs, FG_of_AG (haff.cons c hc).rhs, hdef c hc⟩
-  · intro ρ _ n bd hl; simp [lookupB] at hl
+  · intro ρ _ n bd _ hl; simp [lookupB] at hl
 
 /-- non-vacuity with a REAL auxiliary: `min y s.t. c: abs{x} ≤ y`, `x ∈ [-1, 2]`, bounds map `x ∈ [-1, 2]` compiles
 (declaring `$abs_0` and processing its two rows) and satisfies every hypothesis of `c01_partial`. -/
